@@ -18,34 +18,46 @@ CONSTANTS MaxFile,      \* maxBytesPerFile
           SyncEvery,    \* syncEvery (loop iterations)
           Sizes,        \* set of record sizes (header included)
           MaxPuts,      \* bound on messages enqueued before a crash
-          MaxCrashes,   \* 0 or 1
+          MaxCrashes,   \* 0, 1 or 2 (2: the incarnation after the first crash is used, then crashes again)
           AllowReopen,  \* clean Close + reopen allowed
           AllowTick,    \* sync ticker may fire
           PostPuts,     \* messages the client may enqueue after the recovery (0 or 1)
           Mutant        \* "" = faithful model; otherwise a named deviation (non-vacuity checks)
+
+(* Generations.  While no crash is pending judgement (mark = None) the current incarnation has a     *)
+(* logical content lseq: the sequence of message ids it holds in FIFO order, consumed ones included.  *)
+(* In the first incarnation lseq = <<1, 2, ..., Len(enq)>>.  After a crash the next incarnation is     *)
+(* either judged (mark # None: drain + sentinel, contract RecoveryOK over positions in lseq) or, if    *)
+(* another crash is allowed, adopted as the new base ("rebase"): its logical content is the run X that *)
+(* the recovery delivers (what a full drain of the files yields, DrainX) followed by the messages put  *)
+(* afterwards; consumed/cSync restart at 0 and the part of X that was written before the last          *)
+(* completed sync counts as synced.  The C08 contract of the second crash is judged over that lseq.    *)
 
 None == [none |-> TRUE]
 
 VARIABLES
   \* ---- filesystem (survives Crash)
   seg,      \* [fileNum -> Seq(<<id, k>>)] for existing segment files
-  meta,     \* None or [depth, rf, rp, wf, wp]          (<name>.diskqueue.meta.dat)
+  meta,     \* None or [depth, rf, rp, wf, wp, tail]    (<name>.diskqueue.meta.dat)
   tmp,      \* None or same record                       (....meta.dat.tmp)
+            \* tail = number of stale bytes behind the metadata text: the temp file is opened with
+            \* O_CREATE but without O_TRUNC, so a temp file left by a crash is overwritten in place
   \* ---- process memory (lost at Crash)
   rf, rp, wf, wp, depth, nrf, nrp, needSync, count, wopen, pending, pc, ret, up,
   ropen,    \* the read file is open (bufio.Reader attached)
   rbuf,     \* cells read ahead by the bufio.Reader and not yet consumed
   rfoff,    \* OS offset of the read file (first cell not yet in rbuf)
   \* ---- client-visible history (hidden by VIEW)
-  enq,      \* Seq(size): enq[id] is the size of message id
-  consumed, \* messages handed to the consumer before the crash
-  taken,    \* Seq(id) delivered after the crash (current incarnation)
-  wSync, cSync,   \* Len(enq) / consumed when the last metadata rename completed
-  crashes, mark   \* mark: None or [n, c, ws, cs] captured at the crash
+  enq,      \* Seq(size): enq[id] is the size of message id (all incarnations)
+  lseq,     \* Seq(id): logical content of the base incarnation (see "Generations")
+  consumed, \* number of messages of lseq handed to the consumer before the crash
+  taken,    \* Seq(id) delivered after the crash (incarnation under judgement)
+  wSync, cSync,   \* Len(lseq) / consumed when the last metadata rename completed
+  crashes, mark   \* mark: None or [n, c, ws, cs, top] captured at the crash (top = Len(enq))
 
 fsvars  == <<seg, meta, tmp>>
 memvars == <<rf, rp, wf, wp, depth, nrf, nrp, needSync, count, wopen, pending, pc, ret, up, ropen, rbuf, rfoff>>
-hist    == <<enq, consumed, taken, wSync, cSync, crashes, mark>>
+hist    == <<enq, lseq, consumed, taken, wSync, cSync, crashes, mark>>
 rdvars  == <<ropen, rbuf, rfoff>>
 vars    == <<fsvars, memvars, hist>>
 
@@ -86,16 +98,29 @@ ReadOne ==
                             ELSE ReadRes(-2, <<>>, 0)
 
 Readable == rf < wf \/ rp < wp
-MemMeta == IF Mutant = "persist_next_read"
-           THEN [depth |-> depth, rf |-> nrf, rp |-> nrp, wf |-> wf, wp |-> wp]
-           ELSE [depth |-> depth, rf |-> rf, rp |-> rp, wf |-> wf, wp |-> wp]
+
+\* ---- metadata text.  "%d\n%d,%d\n%d,%d\n" with positions in bytes (one cell = CellBytes bytes)
+CellBytes == 8
+Digits(x) == IF x < 10 THEN 1 ELSE IF x < 100 THEN 2 ELSE IF x < 1000 THEN 3 ELSE 4
+TextLen(m) == Digits(m.depth) + Digits(m.rf) + Digits(CellBytes * m.rp) + Digits(m.wf) + Digits(CellBytes * m.wp) + 5
+FileLen(m) == IF m = None THEN 0 ELSE TextLen(m) + m.tail
+MetaRecT(d, f1, p1, f2, p2, t) == [depth |-> d, rf |-> f1, rp |-> p1, wf |-> f2, wp |-> p2, tail |-> t]
+\* the text written by persistMetaData over whatever the temp file held before
+MemMeta == LET m == IF Mutant = "persist_next_read" THEN MetaRecT(depth, nrf, nrp, wf, wp, 0)
+                                                    ELSE MetaRecT(depth, rf, rp, wf, wp, 0)
+               stale == FileLen(tmp) - TextLen(m)
+           IN [m EXCEPT !.tail = IF stale > 0 THEN stale ELSE 0]
+\* retrieveMetaData: Fscanf stops after the fifth number, a stale tail is ignored.  Deviation
+\* "strict_meta_parse": the whole file must be exactly five numbers; a tail of one byte is the
+\* final newline of the longer text (harmless), a longer tail holds at least one more digit.
+MetaUsable == meta # None /\ ~(Mutant = "strict_meta_parse" /\ meta.tail >= 2)
 
 Init ==
   /\ seg = <<>> /\ meta = None /\ tmp = None
   /\ rf = 0 /\ rp = 0 /\ wf = 0 /\ wp = 0 /\ depth = 0 /\ nrf = 0 /\ nrp = 0
   /\ needSync = FALSE /\ count = 0 /\ wopen = FALSE /\ pending = -1 /\ pc = "top" /\ ret = "top" /\ up = TRUE
   /\ ropen = FALSE /\ rbuf = <<>> /\ rfoff = 0
-  /\ enq = <<>> /\ consumed = 0 /\ taken = <<>> /\ wSync = 0 /\ cSync = 0 /\ crashes = 0 /\ mark = None
+  /\ enq = <<>> /\ lseq = <<>> /\ consumed = 0 /\ taken = <<>> /\ wSync = 0 /\ cSync = 0 /\ crashes = 0 /\ mark = None
 
 \* ---------------------------------------------------------------- loop top
 Top ==
@@ -118,8 +143,8 @@ SyncRen ==
   /\ up /\ pc = "sync_ren"
   /\ meta' = tmp /\ tmp' = None
   /\ needSync' = FALSE /\ pc' = ret
-  /\ IF mark = None THEN wSync' = Len(enq) /\ cSync' = consumed ELSE UNCHANGED <<wSync, cSync>>
-  /\ UNCHANGED <<seg, rf, rp, wf, wp, depth, nrf, nrp, count, wopen, pending, ret, up, enq, consumed, taken, crashes, mark, rdvars>>
+  /\ IF mark = None THEN wSync' = Len(lseq) /\ cSync' = consumed ELSE UNCHANGED <<wSync, cSync>>
+  /\ UNCHANGED <<seg, rf, rp, wf, wp, depth, nrf, nrp, count, wopen, pending, ret, up, enq, lseq, consumed, taken, crashes, mark, rdvars>>
 
 \* read-ahead (readOne); no filesystem mutation
 Read ==
@@ -155,7 +180,7 @@ Take ==
                     ELSE consumed' = consumed /\ taken' = Append(taken, pending)
   /\ rf' = nrf /\ rp' = nrp /\ depth' = depth - 1 /\ pending' = -1
   /\ IF rf # nrf THEN needSync' = TRUE /\ pc' = "rm" ELSE needSync' = needSync /\ pc' = "tail"
-  /\ UNCHANGED <<fsvars, wf, wp, nrf, nrp, count, wopen, ret, up, enq, wSync, cSync, crashes, mark, rdvars>>
+  /\ UNCHANGED <<fsvars, wf, wp, nrf, nrp, count, wopen, ret, up, enq, lseq, wSync, cSync, crashes, mark, rdvars>>
 \* os.Remove(old read file)                                           [r_remove]
 Rm ==
   /\ up /\ pc = "rm"
@@ -173,8 +198,9 @@ Tail_ ==
 \* dataWrite := <-writeChan ; writeOne begins
 PutStart(n) ==
   /\ up /\ pc = "select"
-  /\ IF mark = None THEN Len(enq) < MaxPuts ELSE Len(enq) < mark.n + PostPuts
+  /\ IF mark = None THEN Len(enq) < MaxPuts ELSE Len(enq) < mark.top + PostPuts
   /\ enq' = Append(enq, n)
+  /\ lseq' = IF mark = None THEN Append(lseq, Len(enq) + 1) ELSE lseq
   /\ pc' = IF wopen THEN "w_write" ELSE "w_open"
   /\ UNCHANGED <<fsvars, rf, rp, wf, wp, depth, nrf, nrp, needSync, count, wopen, pending, ret, up, consumed, taken, wSync, cSync, crashes, mark, rdvars>>
 \* os.OpenFile(O_RDWR|O_CREATE) + Seek(writePos)                        [w_open]
@@ -209,8 +235,8 @@ Crash ==
   /\ up /\ mark = None /\ crashes < MaxCrashes
   /\ pc \notin {"closed"}
   /\ up' = FALSE /\ crashes' = crashes + 1
-  /\ mark' = [n |-> Len(enq), c |-> consumed, ws |-> wSync, cs |-> cSync]
-  /\ UNCHANGED <<fsvars, rf, rp, wf, wp, depth, nrf, nrp, needSync, count, wopen, pending, pc, ret, enq, consumed, taken, wSync, cSync, rdvars>>
+  /\ mark' = [n |-> Len(lseq), c |-> consumed, ws |-> wSync, cs |-> cSync, top |-> Len(enq)]
+  /\ UNCHANGED <<fsvars, rf, rp, wf, wp, depth, nrf, nrp, needSync, count, wopen, pending, pc, ret, enq, lseq, consumed, taken, wSync, cSync, rdvars>>
 \* Close(): ioLoop leaves at the select, files are closed, then sync()
 CleanClose ==
   /\ AllowReopen /\ up /\ pc = "select"
@@ -219,45 +245,83 @@ CleanClose ==
 Closed ==
   /\ up /\ pc = "closed" /\ up' = FALSE
   /\ UNCHANGED <<fsvars, rf, rp, wf, wp, depth, nrf, nrp, needSync, count, wopen, pending, pc, ret, hist, rdvars>>
-\* NewDiskQueue: retrieveMetaData, start ioLoop
-Open ==
+\* What a full drain of the files yields when the queue starts from positions (f, p) .. (w, q):
+\* the ioLoop/readOne/moveForward/handleReadError logic without interleaved writes (no buffer effects:
+\* the files do not change during a pure drain).  Undefined bytes end the run (that path is flagged by
+\* NoGarbage where it is taken); a clean read error skips the file like handleReadError does.
+RECURSIVE DrainX(_, _, _, _, _)
+DrainX(sg, f, p, w, q) ==
+  IF ~(f < w \/ p < q) THEN <<>>
+  ELSE LET skipFile == DrainX([g \in (DOMAIN sg) \ {f} |-> sg[g]], f + 1, 0,
+                              IF f = w THEN w + 1 ELSE w, IF f = w THEN 0 ELSE q)
+       IN IF f \notin DOMAIN sg \/ p >= Len(sg[f]) THEN skipFile
+          ELSE LET c == sg[f][p + 1] IN
+               IF c[2] # 0 \/ c[1] < 1 \/ c[1] > Len(enq) THEN <<>>
+               ELSE LET id == c[1]
+                        n == enq[id] IN
+                    IF p + n > Len(sg[f]) THEN skipFile
+                    ELSE IF \E k \in 1..n : sg[f][p + k] # <<id, k - 1>> THEN <<>>
+                    ELSE <<id>> \o (IF p + n > MaxFile THEN DrainX(sg, f + 1, 0, w, q)
+                                                       ELSE DrainX(sg, f, p + n, w, q))
+
+PosIn(s, id) == IF \E i \in 1..Len(s) : s[i] = id THEN CHOOSE i \in 1..Len(s) : s[i] = id ELSE 0
+
+\* NewDiskQueue: retrieveMetaData, truncateWriteFile, start ioLoop.  rebase = adopt this incarnation
+\* as the new base (only directly after a crash, when another crash is still allowed).
+OpenAs(rebase) ==
   /\ ~up /\ up' = TRUE
-  /\ IF meta = None
-     THEN rf' = 0 /\ rp' = 0 /\ wf' = 0 /\ wp' = 0 /\ depth' = 0 /\ nrf' = 0 /\ nrp' = 0
-     ELSE rf' = meta.rf /\ rp' = meta.rp /\ wf' = meta.wf /\ wp' = meta.wp /\ depth' = meta.depth
-          /\ nrf' = meta.rf /\ nrp' = meta.rp
+  /\ LET f1 == IF MetaUsable THEN meta.rf ELSE 0
+         p1 == IF MetaUsable THEN meta.rp ELSE 0
+         f2 == IF MetaUsable THEN meta.wf ELSE 0
+         p2 == IF MetaUsable THEN meta.wp ELSE 0
+         \* discard what lies beyond the persisted write position in the write file (absent in the
+         \* pinned code: deviation "no_truncate_on_open")
+         sg == IF Mutant # "no_truncate_on_open" /\ f2 \in Files /\ Len(seg[f2]) > p2
+               THEN [seg EXCEPT ![f2] = SubSeq(seg[f2], 1, p2)] ELSE seg
+     IN /\ rf' = f1 /\ rp' = p1 /\ wf' = f2 /\ wp' = p2 /\ nrf' = f1 /\ nrp' = p1
+        /\ depth' = IF MetaUsable THEN meta.depth ELSE 0
+        /\ seg' = sg
+        /\ IF rebase
+           THEN LET X == DrainX(sg, f1, p1, f2, p2) IN
+                /\ lseq' = X /\ consumed' = 0 /\ cSync' = 0
+                \* the part of X written before the last completed sync (X is a run of lseq)
+                /\ wSync' = Cardinality({i \in 1..Len(X) : PosIn(lseq, X[i]) \in 1..mark.ws})
+                /\ mark' = None /\ taken' = <<>>
+                /\ UNCHANGED <<enq, crashes>>
+           ELSE UNCHANGED hist
   /\ needSync' = FALSE /\ count' = 0 /\ wopen' = FALSE /\ pending' = -1 /\ pc' = "top" /\ ret' = "top"
   /\ ropen' = FALSE /\ rbuf' = <<>> /\ rfoff' = 0
-  \* discard what lies beyond the persisted write position in the write file (absent in the
-  \* pinned code: deviation "no_truncate_on_open")
-  /\ LET f == IF meta = None THEN 0 ELSE meta.wf
-         p == IF meta = None THEN 0 ELSE meta.wp IN
-     IF Mutant # "no_truncate_on_open" /\ f \in Files /\ Len(seg[f]) > p
-     THEN seg' = [seg EXCEPT ![f] = SubSeq(seg[f], 1, p)] ELSE seg' = seg
-  /\ UNCHANGED <<meta, tmp, hist>>
+  /\ UNCHANGED <<meta, tmp>>
+Open == OpenAs(FALSE)
+OpenRebase == mark # None /\ crashes < MaxCrashes /\ pc # "closed" /\ OpenAs(TRUE)
 
 Next == Top \/ SyncTmp \/ SyncRen \/ Read \/ ReadErr \/ Take \/ Rm \/ Tail_
         \/ (\E n \in Sizes : PutStart(n)) \/ WOpen \/ PutWrite \/ PutClose \/ Tick
-        \/ Crash \/ CleanClose \/ Closed \/ Open
+        \/ Crash \/ CleanClose \/ Closed \/ Open \/ OpenRebase
 Spec == Init /\ [][Next]_vars
 
 \* ------------------------------------------------------------------ contract
 Idle == up /\ pc = "select" /\ ~Readable
-\* deliveries after the crash that are pre-crash messages / post-crash (sentinel) messages
-OldTaken == SelectSeq(taken, LAMBDA id : mark # None /\ id <= mark.n)
-\* C09: exact FIFO while no crash happened -- Take always hands out message consumed+1
-C09Fifo == (mark = None /\ up /\ pc = "select" /\ pending # -1 /\ Readable) => pending = consumed + 1
+\* deliveries after the crash that are pre-crash messages / post-crash (sentinel) messages; the
+\* contract speaks about positions in the logical content of the crashed incarnation (0 = not in it)
+OldTaken == SelectSeq(taken, LAMBDA id : mark # None /\ id <= mark.top)
+OldPos == [i \in 1..Len(OldTaken) |-> PosIn(lseq, OldTaken[i])]
+\* C09: exact FIFO while no crash is pending -- Take always hands out the next message of lseq
+C09Fifo == (mark = None /\ up /\ pc = "select" /\ pending # -1 /\ Readable)
+              => (consumed < Len(lseq) /\ pending = lseq[consumed + 1])
 C09Depth == (crashes = 0 /\ Idle) => (depth = 0 /\ consumed = Len(enq))
 C09DepthRest == (crashes = 0 /\ up /\ pc = "select") => depth = Len(enq) - consumed
+\* an adopted incarnation delivers all of its logical content if it is left alone
+GenIdle == (mark = None /\ Idle) => consumed = Len(lseq)
 \* C08: every prefix of the post-crash deliveries is consistent, and at idle the whole contract holds
-C08Run == mark # None => /\ IsRun(OldTaken)
-                         /\ \A i \in 1..Len(OldTaken) : OldTaken[i] \in 1..mark.n
-                         /\ (OldTaken # <<>> => OldTaken[1] <= mark.c + 1 /\ OldTaken[1] > mark.cs)
-C08 == (mark # None /\ Idle) => RecoveryOK(OldTaken, mark.n, mark.c, mark.ws, mark.cs)
+C08Run == mark # None => /\ IsRun(OldPos)
+                         /\ \A i \in 1..Len(OldPos) : OldPos[i] \in 1..mark.n
+                         /\ (OldPos # <<>> => OldPos[1] <= mark.c + 1 /\ OldPos[1] > mark.cs)
+C08 == (mark # None /\ Idle) => RecoveryOK(OldPos, mark.n, mark.c, mark.ws, mark.cs)
 \* a message enqueued after the recovery is delivered too (nothing written lands in a skipped file)
-C08Sentinel == (mark # None /\ Idle) => \A id \in (mark.n + 1)..Len(enq) : \E j \in 1..Len(taken) : taken[j] = id
+C08Sentinel == (mark # None /\ Idle) => \A id \in (mark.top + 1)..Len(enq) : \E j \in 1..Len(taken) : taken[j] = id
 \* recovery never interprets undefined bytes as a record and never has to skip files
 NoGarbage == pc # "garbage"
 NoSkip == pc # "skip"
-View == <<fsvars, memvars, enq, mark, taken, consumed>>
+View == <<fsvars, memvars, enq, lseq, mark, taken, consumed>>
 =============================================================================
